@@ -271,9 +271,13 @@ def run_extraction(ex: Extraction, report):
             raise LostAnchor("fragment end /%s/ not found in fn %s" % (ex.args["end"], ex.args.get("fn")))
         fe = o + me.end()
         if ex.args.get("end_block"):
-            k = fe - 1
-            while msk[k] != "{":
-                k += 1
+            # the block opened by the last `{` inside the end match (else: the first `{` after it)
+            ms, me_ = o + me.start(), o + me.end()
+            k = msk.rfind("{", ms, me_)
+            if k < 0:
+                k = me_
+                while msk[k] != "{":
+                    k += 1
             fe = match_delim(msk, k) + 1
         elif ex.args.get("end_stmt"):
             fe = _stmt_end(msk, fe)
@@ -305,6 +309,9 @@ def run_extraction(ex: Extraction, report):
                 t.delete(ls, e)
                 n += 1
             rec["rewrites"].append({"rule": "R1 drop statement", "regex": rx, "count": n})
+        elif kind == "desugar_let_chains":
+            n = _desugar_let_chains(t)
+            rec["rewrites"].append({"rule": "let-chain desugaring: `if let P = E && C {B}` -> `if let P = E { if C {B} }` (only without else)", "count": n})
         elif kind in ("sub", "subopt"):
             lhs, rhs = payload.split("=>", 1)
             _, p = parse_args(lhs.strip())
@@ -427,6 +434,47 @@ def _drop_macros(t: SrcText, names):
             t.replace(a, e, "()")
             pos = a + 2
         n += 1
+
+
+def _desugar_let_chains(t: SrcText):
+    """Rewrite `if let PAT = EXPR && REST { BODY }` (no else) into nested ifs.  Verus has no let-chains."""
+    n = 0
+    pos = 0
+    while True:
+        mk = mask(t.s)
+        m = re.compile(r"\bif\s+let\b").search(mk, pos)
+        if not m:
+            return n
+        # scan condition to the `{` that opens the block, tracking top-level `&&`
+        j = m.end()
+        amp = None
+        while j < len(mk):
+            c = mk[j]
+            if c in "([":
+                j = match_delim(mk, j)
+            elif c == "{":
+                break
+            elif mk.startswith("&&", j) and amp is None:
+                amp = j
+            elif mk.startswith("||", j) and amp is None:
+                pass
+            j += 1
+        if j >= len(mk):
+            return n
+        if amp is None:
+            pos = m.end()
+            continue
+        ob = j
+        cb = match_delim(mk, ob)
+        after = mk[cb + 1:cb + 40]
+        if re.match(r"\s*else\b", after):
+            raise Unsupported("let-chain with an else branch cannot be desugared mechanically")
+        rest = t.s[amp + 2:ob].strip()
+        # build: if let P = E { if REST { BODY } }
+        t.insert(cb + 1, " }", t.o[cb])
+        t.replace(amp, ob, "{ if " + rest + " ", t.o[amp])
+        n += 1
+        pos = m.end()
 
 
 _SPEC_START = re.compile(
